@@ -85,6 +85,12 @@ impl Rng {
         v
     }
 
+    /// lo..=hi random bytes
+    pub fn bytes_range(&mut self, lo: usize, hi: usize) -> Vec<u8> {
+        let n = self.range(lo, hi);
+        self.bytes(n)
+    }
+
     /// pick an index according to integer weights
     pub fn weighted(&mut self, w: &[usize]) -> usize {
         let total: usize = w.iter().sum();
